@@ -4,6 +4,8 @@ from __future__ import annotations
 import errno
 import os
 import os.path
+import time
+import uuid
 from collections.abc import Iterable, AsyncIterable
 from contextlib import AsyncExitStack
 from datetime import datetime
@@ -82,9 +84,15 @@ class Maildir(_Maildir):
                 yield name.rsplit(self.colon, 1)[0]
 
     def move_message(self, key: str, dest: Maildir, dest_subdir: str) -> str:
-        """Moves the message to another maildir."""
+        """Moves the message to another maildir, under a new unique name. A
+        UID record left behind for the old name, e.g. by a crash during the
+        move, can then never match the message again.
+
+        """
         subpath = self._lookup(key)
         subdir, name = self._split(subpath)
+        name = '%d.%s.moved%s' % (time.time(), uuid.uuid4().hex,
+                                  name[len(key):])
         dest_subpath = os.path.join(dest_subdir, name)
         path = self._join(subpath)
         dest_path = dest._join(dest_subpath)
